@@ -17,9 +17,11 @@ LEVEL_TEXT = ("Bounded contract on the real xarray_dataset_from_results / load_x
               "with the input's values (zipped inputs: one multi-index); outputs without MapSpec are dimensionless / "
               "plain variables; selecting by coordinate value returns the element computed from that input value. "
               "xarray/pandas objects are outside the proof rung: no deductive part ('exploration').")
+LEVEL_TEXT += (" Proved part (pyvc): _data_loader - the only place where the two entry points differ: given the results of a run it hands out that run's output, otherwise what load_outputs reads from the folder (load_outputs is an assumed contract; that both hold the same values is C04).")
 LEVEL_NOTE = ("Bounds: programs of 1..3 functions, rank<=2, sizes 1..3, load_intermediate on/off, inputs supplied or "
               "taken from (array) defaults. Trusted: reference denotation rtc/progs.py, xarray.")
 TECHNIQUE = "bounded contract checking of the dataset labelling against the reference denotation (no deductive part)"
+TECHNIQUE += ('; _data_loader discharged by z3')
 EXPLANATION = LEVEL_TEXT
 RULE = ("program x load_intermediate; distinct = distinct (program, flag); non-trivial = a mapped output with >=2 elements")
 TRUSTED_BASE = ["reference denotation rtc/progs.py", "xarray / pandas"]
@@ -31,7 +33,11 @@ def registry():
 
 
 def proof_items():
-    return []
+    from contracts import small
+    from vf.driver import ProofItem
+    # xarray_dataset_from_results and load_xarray_dataset differ only in where a value is read from
+    return [ProofItem(small.data_loader, gen=small.dl_gen, call=small.dl_call,
+                      registry=lambda: {**{c.short: c for c in small.DATA_LOADER}, **{c.name: c for c in small.DATA_LOADER}})]
 
 
 def _cases(tier, rng):
